@@ -1267,9 +1267,9 @@ theorem wf_buildOpen (hpc : ∀ w, pc w = popcount w) (hsiw : ∀ w k, siw w k =
     exact wf_of_binv hpc hsiw hrate false _ _ ps _ (binv_final false _ ps hsorted) hsmall len _
 
 /-- The open-position table denotes the recorded sequence wherever the IB bitmap has a word for the
-position (`p < 64 · ⌈text_len / 64⌉`). -/
+position (`p < 64 · ⌈(text_len + 1) / 64⌉`, which covers every `p ≤ text_len`). -/
 theorem tableFn_buildOpen (F : Flavor) (ps : List Nat) (len : Nat) (hsorted : ps.Pairwise (· ≤ ·)) (i : Nat) :
-    (∀ (hi : i < ps.length), ps[i] < 64 * divCeil len 64 →
+    (∀ (hi : i < ps.length), ps[i] < 64 * divCeil (len + 1) 64 →
       tableFn F (buildOpen pc siw rate ps len) i = some (F.conv ps[i])) ∧
     (ps.length ≤ i → tableFn F (buildOpen pc siw rate ps len) i = none) := by
   unfold buildOpen
@@ -1281,7 +1281,7 @@ theorem tableFn_buildOpen (F : Flavor) (ps : List Nat) (len : Nat) (hsorted : ps
   · rw [if_neg he]
     dsimp only
     rw [openLoop_eq]
-    have inv := binv_final false (divCeil len 64) ps hsorted
+    have inv := binv_final false (divCeil (len + 1) 64) ps hsorted
     refine ⟨fun hi hcap => ?_, fun hi => ?_⟩
     · exact (tableFn_of_binv F false _ _ ps _ inv _ rfl rfl rfl i hi).2 (by simp) hcap
     · unfold tableFn
@@ -1331,7 +1331,7 @@ theorem end_runFrom_compact (t : Table) (c : Cursor) (hist : List Nat) :
 bitmap has a word for it. -/
 theorem open_get_after (hpc : ∀ w, pc w = popcount w) (hsiw : ∀ w k, siw w k = selectInWordSpec w k)
     (hrate : 0 < rate) (ps : List Nat) (len : Nat)
-    (hcap : ∀ p ∈ ps, p < 64 * divCeil len 64) (hu32 : ∀ p ∈ ps, p < 2 ^ 32) (hsmall : ps.length < usizeMax)
+    (hcap : ∀ p ∈ ps, p < 64 * divCeil (len + 1) 64) (hu32 : ∀ p ∈ ps, p < 2 ^ 32) (hsmall : ps.length < usizeMax)
     (hist : List Nat) (i : Nat) :
     ((OpenPositions.build pc siw rate ps len).get pc siw rate
       ((OpenPositions.build pc siw rate ps len).runFrom pc siw rate Cursor.init hist).2 i).1 = .val ps[i]? := by
